@@ -26,7 +26,7 @@ def gen_cases(rng, n_valid, n_fault):
             out.append({"routine": r, "faulted": False, "seed": rng.randint(0, 10**9)})
     k = 0
     while k < n_fault:
-        r = H.gen_hierarchy(rng, max_depth=rng.randint(1, 3), p_rep=0.4, p_through=0.2, max_children=4)
+        r = H.gen_hierarchy(rng, max_depth=rng.randint(2, 4), p_rep=rng.choice([0.4, 0.7]), p_through=0.2, max_children=rng.choice([2, 4]))
         if H.count_nodes(r) > 10:
             continue
         f = H.inject_fault(rng, r)
